@@ -481,6 +481,9 @@ func TestLibraryEntryPoints(t *testing.T) {
 	defer cp.stop()
 	getEnv()
 	pbt.Check(t, pbt.Cfg{Name: "lib_entry", Quick: 300000, Thorough: 10000000}, func(r *pbt.Run) {
+		if wedged.Load() {
+			return
+		}
 		c := genLibCase(r.T)
 		r.Case(c)
 		r.Class(c.Kind)
